@@ -68,7 +68,7 @@ func (a *c05) runFlow() *c05Flow {
 	// The mutex state is part of the flow (not taken from the lockset engine), so
 	// that code running inside a callback such as withLock(func(){...}) or in a
 	// helper entered with the mutex held is judged in its caller's state.
-	f := &c05Flow{a: a, G: 8, K: 1, Fresh: 0}
+	f := &c05Flow{a: a, G: 8, Cells: true, Fresh: 0}
 	f.Tracked = func(v ssa.Value) bool {
 		if a.isRunningLoad(v) {
 			return true
@@ -136,7 +136,7 @@ func (a *c05) runFlow() *c05Flow {
 		return c05MkRun(c05rvF, c05Claimed(g))
 	}
 	f.Exit = func(fn *ssa.Function, g int) int {
-		if fn == a.sched {
+		if a.schedRoots[fn] {
 			return 0 // the scheduler role ends when the loop returns
 		}
 		return g
@@ -584,6 +584,14 @@ func (a *c05) checkTwins() {
 			}
 			return g, false
 		}
+		if field == a.fRemove {
+			f.EdgeG = func(from, to *ssa.BasicBlock, g int) int {
+				if a.removalMiss(from, to) {
+					return 1 // searched, not there: nothing to apply
+				}
+				return g
+			}
+		}
 		f.Run(nil)
 		what := "removal"
 		if field == a.fAdd {
@@ -670,7 +678,7 @@ func (a *c05) checkStopClears() {
 		}
 		if x, ok := in.(*ssa.Store); ok {
 			if _, isR := c05FieldAddr(x.Addr, a.fRunning); isR {
-				if k, isK := x.Val.(*ssa.Const); isK && k.Value != nil && k.Value.String() == "false" && a.e.At(in)[a.lockID] == ModeW {
+				if k, isK := x.Val.(*ssa.Const); isK && k.Value != nil && k.Value.String() == "false" && a.mutexHeldAt(in) {
 					return g | cleared, false
 				}
 				return g &^ cleared, false
@@ -741,4 +749,13 @@ func (a *c05) appendContains(v, elem ssa.Value) bool {
 		}
 	}
 	return false
+}
+
+// mutexHeldAt: in every state of the running/claimed flow the mutex is held at in.
+func (a *c05) mutexHeldAt(in ssa.Instruction) bool {
+	if a.run == nil {
+		return a.e.At(in)[a.lockID] == ModeW
+	}
+	ok, reached := a.run.All(in, func(g int) bool { return c05Rv(g) != c05rvUnk })
+	return ok && reached
 }
